@@ -10,6 +10,12 @@ CLAIMED = {
    text="Proof for all x and all 514 units: each per-unit ToStandard/FromStandard body (instantiated AST) equals, as a real function, the affine map A*pi^k*x+B obtained by expanding the unit's own abbreviation with an independent SI/NIST atom table (z3, exact rationals, pi symbolic); for each numeric type the same body with every constant sub-expression evaluated by exact IEEE emulation (incl. double rounding of long double literals) and (1+d) on the operations involving x stays within 8u of the exact map for all x (z3 nlsat); the run-time dispatch ConvertInPlace(x,from,to) selects for every enumerator in the declared range the routine of that enumerator and every lookup hits (CBMC contract, SAT); all ordered pairs follow by the composition lemma.",
    ref="DESIGN.md 5 C01",
    note="Underflow/overflow excluded (standard model); libm pow assumed correctly rounded (4 mass-density constants); unit oracle spec/unit_atoms.py hand-written from SI Brochure/NIST SP 811 (cal and BTU admit their conventional values). float/long double NOISY obligations run in the thorough tier."),
+ 'C07': dict(
+   text="Proof over the finite configuration space (4 systems x 37 unit types, all 514 units): for every consistent unit the SI magnitude computed by the code's own ToStandard body (symbolic execution on exact rationals, pi symbolic) equals the product of the magnitudes of that system's base units raised to the declared dimension exponents; the standard system maps to the standard units; RelatedUnitSystem(u) == s iff u is the consistent unit of exactly {s} and ConsistentUnit(s) never throws, for every enumerator in the declared range (CBMC contracts over the extracted tables, symbolic enumerator).",
+   ref="DESIGN.md 5 C07", note="std::map abstract function (first equal key wins) is a trusted mapping of the initialiser lists."),
+ 'C08': dict(
+   text="Proof over all enumerators of the 39 enumeration types (ranges from the EnumDecls) and all ~2030 spelling rows: Abbreviation(e) hits and ParseEnumeration(Abbreviation(e)) == e for every e in range (CBMC contract, symbolic enumerator); abbreviations pairwise distinct; every unit has both conversion dispatch rows; every accepted spelling maps to an enumerator whose magnitude (exact rational, pi power) equals what an independent spelling oracle says the spelling denotes under the type's declared dimension set; ParseEnumeration(s) has a value iff s is an accepted spelling (interned strings).",
+   ref="DESIGN.md 5 C08", note="unordered_map/map abstract function trusted; strings compared as interned ids (byte-wise equality); operator<< (streaming) token contract not yet included; spelling oracle spec/unit_spellings.py hand-written."),
  'C09': dict(
    text="Proof for all inputs: every tensor-algebra member and free operator of PlanarVector/Vector/SymmetricDyad/Dyad (instantiated bodies from clang's AST) equals the textbook index formula on the 3x3 embedding as a function over the reals (one z3 obligation per function/component group); Inverse*A==I and A*Inverse==I when det!=0; Inverse present iff computed determinant != 0 and each slot == adjugate/det bit-precisely (CBMC contract, callee contracts). Rounding ('few ulps') is not machine-checked: identities are over exact reals.",
    ref="DESIGN.md 5 C09"),
